@@ -42,6 +42,22 @@ def tlc_instances(ctx, kind):
     return [s for s in nodes.values() if s["kind"] == kind]
 
 
+class NonlinOp(LinearOperator):
+    """matrix-free Hermitian operator that depends NON-linearly on its parameter tensor: S + diag(fun(p))"""
+
+    def __init__(self, S, p, fun):
+        super().__init__(shape=S.shape, is_hermitian=True, dtype=S.dtype, device=S.device)
+        self.S = S
+        self.p = p
+        self.fun = fun
+
+    def _mv(self, x):
+        return torch.matmul(self.S, x.unsqueeze(-1)).squeeze(-1) + self.fun(self.p) * x
+
+    def _getparamnames(self, prefix=""):
+        return [prefix + "p"]
+
+
 def sym2(x):
     return 0.5 * (x + x.transpose(-2, -1))
 
@@ -130,8 +146,10 @@ def table(ctx, thorough, g):
                    ("broyden1", "custom_exactsolve"), ("gmres", None)):
         for mode in ("none", "E", "EM", "M"):
             for dt in (DT, torch.complex128):
-                for opkind in ("dense", "derived", "mvrmv", "mvonly"):
+                for opkind in ("dense", "derived", "mvrmv", "mvonly", "nonlinear"):
                     for batch in (((), ()), ((2,), ()), ((), (2,))):
+                        if opkind == "nonlinear" and (batch != ((), ()) or dt.is_complex or fm in ("exactsolve", "gmres")):
+                            continue
                         if not thorough and ((opkind in ("mvrmv", "mvonly") and batch != ((), ())) or (dt.is_complex and batch != ((), ())) or (fm == "broyden1" and dt.is_complex)):
                             continue
                         if fm == "gmres" and mode in ("E", "EM"):
@@ -154,16 +172,37 @@ def table(ctx, thorough, g):
             Q = rand_unitary(nn_, (), dt, g)
             Mm = ((Q * torch.linspace(0.8, 1.2, nn_, dtype=DT).to(dt)) @ Q.transpose(-2, -1).conj()).requires_grad_()
         herm = lambda X: 0.5 * (X + X.transpose(-2, -1).conj())
-        Aeff = herm(A0) if opkind != "derived" else herm(A0) * 1.0 + 0.0
+        if opkind == "nonlinear":
+            # the operator depends NON-linearly on its leaf: A(p) = S + diag(exp(p)); M(q) = M0 + diag(q^2)
+            S0 = herm(A0.detach())
+            pleaf = (torch.randn(nn_, generator=g, dtype=DT) * 0.3).requires_grad_()
+            A0 = pleaf
+            Afun = lambda pp: S0 + torch.diag(torch.exp(pp))
+            if Mm is not None:
+                M0 = herm(Mm.detach())
+                qleaf = (torch.randn(nn_, generator=g, dtype=DT) * 0.2).requires_grad_()
+                Mm = qleaf
+                Mfun = lambda qq: M0 + torch.diag(qq ** 2)
+        Aeff = (herm(A0) if opkind != "derived" else herm(A0) * 1.0 + 0.0) if opkind != "nonlinear" else Afun(A0)
         if opkind in ("dense", "derived"):
             A = LinearOperator.m(Aeff, is_hermitian=True)
+        elif opkind == "nonlinear":
+            A = NonlinOp(S0, A0, torch.exp)
         elif opkind == "mvrmv":
             with warnings.catch_warnings():
                 warnings.simplefilter("ignore")
                 A = MvRmv(Aeff, True)
         else:
             A = MvOnly(Aeff, True)
-        M = LinearOperator.m(herm(Mm), is_hermitian=True) if Mm is not None else None
+        if opkind == "nonlinear" and Mm is not None:
+            with warnings.catch_warnings():
+                warnings.simplefilter("ignore")
+                M = NonlinOp(M0, Mm, lambda qq: qq ** 2)
+            Mdense = lambda: Mfun(Mm)
+        else:
+            M = LinearOperator.m(herm(Mm), is_hermitian=True) if Mm is not None else None
+            Mdense = lambda: herm(Mm) if Mm is not None else None
+        Adense = (lambda: Afun(A0)) if opkind == "nonlinear" else (lambda: herm(A0))
         leaves = [A0, B] + ([E] if E is not None else []) + ([Mm] if Mm is not None else [])
         names = ["A", "B"] + (["E"] if E is not None else []) + (["M"] if Mm is not None else [])
         why = None
@@ -176,7 +215,7 @@ def table(ctx, thorough, g):
             with warnings.catch_warnings():
                 warnings.simplefilter("ignore")
                 X = xitorch.linalg.solve(A, B, E, M, method=fm, **kw)
-                Xr = dense_solution(herm(A0), B, E, herm(Mm) if Mm is not None else None)
+                Xr = dense_solution(Adense(), B, E, Mdense())
                 W = torch.randn(Xr.shape, generator=g, dtype=DT).to(dt)
                 L, Lr = (X * W.conj()).sum().real, (Xr * W.conj()).sum().real
                 g1 = torch.autograd.grad(L, leaves, create_graph=True, allow_unused=True)
@@ -191,7 +230,7 @@ def table(ctx, thorough, g):
                         break
                     a0 = a if a is not None else torch.zeros_like(lf)
                     b0 = b if b is not None else torch.zeros_like(lf)
-                    if nm in ("A", "M"):
+                    if nm in ("A", "M") and a0.dim() >= 2:
                         a0, b0 = herm(a0), herm(b0)
                     if not torch.allclose(a0, b0, atol=tol * 10, rtol=tol * 10):
                         why = "first-order gradient w.r.t. %s differs from the dense reference by %.2e" % (nm, float((a0 - b0).abs().max()))
@@ -205,7 +244,7 @@ def table(ctx, thorough, g):
                     for nm, a, b, lf in zip(names, h1, h2, leaves):
                         a0 = a if a is not None else torch.zeros_like(lf)
                         b0 = b if b is not None else torch.zeros_like(lf)
-                        if nm in ("A", "M"):
+                        if nm in ("A", "M") and a0.dim() >= 2:
                             a0, b0 = herm(a0), herm(b0)
                         if not torch.allclose(a0, b0, atol=1e-5 * (1 + float(b0.abs().max())), rtol=1e-5):
                             why = "second-order gradient w.r.t. %s differs from the dense reference by %.2e" % (nm, float((a0 - b0).abs().max()))
